@@ -1,8 +1,9 @@
 (* C04/Properties.v — property theorems only.
    Stacks of UNBOUNDED depth (induction on the list of frame specs): one technique per walk (scan; frame-pointer
-   chains; CFI through the abstract correct oracle), and — round 5 — the technique chosen PER FRAME between CFI
-   and scanning ([c04_recovers_chain], preconditions = the boolean [mix_wf_layout]).  Frame-pointer frames inside a
-   mix, STACK WIN and the evaluation of real rule text are covered by the correspondence run (design/C04.md). *)
+   chains; CFI through the abstract correct oracle), and — round 5 — the technique chosen PER FRAME among CFI,
+   frame pointer and scanning ([c04_recovers_chain], preconditions = the boolean [mix_wf_layout]; frame-pointer frames
+   in the mix on x86, amd64 and arm64).  STACK WIN and the evaluation of real rule text are covered by the
+   correspondence run (design/C04.md). *)
 From Coq Require Import Lia ZArith List.
 From RM Require Import C05.Model C05.Proofs C04.Model C04.Proofs C04.ProofsFp C04.ProofsMix C04.ProofsRules.
 Import ListNotations.
@@ -87,25 +88,30 @@ Proof. exact (conj fp_arch_x86 (conj fp_arch_amd64 (conj fp_arch_arm64 fp_arch_a
 Print Assumptions c04_fp_archs.
 
 (* technique PER FRAME: every call is either described by CFI (abstract correct oracle [mix_cfi_correct], or any oracle
-   agreeing with it on the frames of this walk; arbitrary words in the frame, look-alike return addresses included) or
+   agreeing with it on the frames of this walk; arbitrary words in the frame, look-alike return addresses included),
+   laid out by the frame-pointer convention ([arbitrary words][saved frame pointer][return address], the callee's frame
+   pointer valid and pointing at the saved word; x86, amd64 with its own sanity checks, arm64) or
    findable only by scanning ([skipped argument words: arbitrary][zeros][return address] inside the window of its
-   callee: 160 words above the context frame, 40 above any other frame, MIPS per c04_constants).  For every
+   callee: 160 words above the context frame, 40 above any other frame, MIPS per c04_constants; the callee's frame
+   pointer not valid or 0).  The frame pointer travels along the stack: set by the context and by every frame-pointer
+   frame (the saved word), carried through CFI frames as a callee-saved register, lost after a scan.  For every
    architecture x OS meeting [mix_arch] (all six; ARM except on iOS, where a valid frame pointer of 0 ends the walk by
    design), both profiles, any module lookup, any context register file: the walker returns the context frame followed
    by exactly one frame per generated call — return address, instruction = ra - adj, sp just above the return-address
-   slot, trust cfi / scan as generated, the validity set (callee-saved registers forwarded through CFI frames, {ip, sp}
-   after a scan), the general registers carried through CFI frames — and stops at the generated end of stack.
+   slot, trust cfi / frame_pointer / scan as generated, the recovered frame pointer, the validity set (callee-saved
+   registers forwarded through CFI frames, {ip, sp, fp} after a frame-pointer frame, {ip, sp} after a scan), the
+   general registers carried through CFI frames — and stops at the generated end of stack.
    The precondition is the boolean [mix_wf_layout]; depth is unbounded (induction on the list of specs). *)
 Theorem c04_recovers_chain :
-  forall p a os module_at max_module_addr instr_valid base fs ip0 gp0 fuel cfi_walk,
+  forall p a os module_at max_module_addr instr_valid base fs ip0 fp0 gp0 fuel cfi_walk,
     mix_arch a os ->
-    (forall callee gc fwd, r_fp (f_regs callee) = 0 -> r_lr (f_regs callee) = 0 ->
+    (forall callee gc fwd, r_lr (f_regs callee) = 0 ->
                            cfi_walk callee gc fwd = mix_cfi_correct a base fs callee gc fwd) ->
-    mix_wf_layout a instr_valid module_at base ip0 fs = true ->
+    mix_wf_layout a instr_valid module_at base ip0 fp0 fs = true ->
     (length fs < fuel)%nat ->
-    let '(r, v, mem) := mix_layout a base ip0 gp0 fs in
+    let '(r, v, mem) := mix_layout a base ip0 fp0 gp0 fs in
     walk_stack current_code p a os mem module_at max_module_addr cfi_walk instr_valid fuel r v
-    = Ret (from_context r v TContext :: mix_chain a v gp0 base 0 fs).
+    = Ret (from_context r v TContext :: mix_chain a v gp0 (Some fp0) base 0 fs).
 Proof. exact mix_recovers_gen. Qed.
 Print Assumptions c04_recovers_chain.
 
@@ -113,41 +119,41 @@ Print Assumptions c04_recovers_chain.
    `.cfa: <sp> N + .ra: .cfa <pointer width> - ^` against the CFI walker (sp must be valid, u64 wrapping arithmetic, the
    return address read from the stack memory at .cfa - pw, cfa and ra must fit the register), the symbol files abstracted
    to [rule_at] : lookup address -> N.  Precondition on the rules ([rules_ok], boolean): the callee of every CFI frame is
-   covered by a record whose N is that frame's size, the callee of every scan frame by none.  Same conclusion. *)
+   covered by a record whose N is that frame's size, the callee of every scan or frame-pointer frame by none.  Same conclusion. *)
 Theorem c04_recovers_chain_rules :
-  forall p a os module_at max_module_addr instr_valid base fs ip0 gp0 fuel rule_at,
+  forall p a os module_at max_module_addr instr_valid base fs ip0 fp0 gp0 fuel rule_at,
     mix_arch a os ->
-    mix_wf_layout a instr_valid module_at base ip0 fs = true ->
+    mix_wf_layout a instr_valid module_at base ip0 fp0 fs = true ->
     rules_ok a rule_at ip0 fs = true ->
     (length fs < fuel)%nat ->
-    let '(r, v, mem) := mix_layout a base ip0 gp0 fs in
+    let '(r, v, mem) := mix_layout a base ip0 fp0 gp0 fs in
     walk_stack current_code p a os mem module_at max_module_addr (cfi_rules a mem rule_at) instr_valid fuel r v
-    = Ret (from_context r v TContext :: mix_chain a v gp0 base 0 fs).
+    = Ret (from_context r v TContext :: mix_chain a v gp0 (Some fp0) base 0 fs).
 Proof. exact mix_recovers_rules. Qed.
 Print Assumptions c04_recovers_chain_rules.
 
 (* ... and for any symbol-file oracle that agrees with the correct one on the frames the walk REACHES (sp at a record of the
-   layout, fp = lr = 0, sp valid, the lookup address of that position): the form a concrete evaluator can meet *)
+   layout, lr = 0, sp valid, the lookup address of that position): the form a concrete evaluator can meet *)
 Theorem c04_recovers_chain_reached :
-  forall p a os module_at max_module_addr instr_valid base fs ip0 gp0 fuel cfi_walk,
+  forall p a os module_at max_module_addr instr_valid base fs ip0 fp0 gp0 fuel cfi_walk,
     mix_arch a os ->
     (forall done f t callee gc fwd, fs = done ++ f :: t -> reached a base ip0 callee done ->
                                     cfi_walk callee gc fwd = mix_cfi_correct a base fs callee gc fwd) ->
-    mix_wf_layout a instr_valid module_at base ip0 fs = true ->
+    mix_wf_layout a instr_valid module_at base ip0 fp0 fs = true ->
     (length fs < fuel)%nat ->
-    let '(r, v, mem) := mix_layout a base ip0 gp0 fs in
+    let '(r, v, mem) := mix_layout a base ip0 fp0 gp0 fs in
     walk_stack current_code p a os mem module_at max_module_addr cfi_walk instr_valid fuel r v
-    = Ret (from_context r v TContext :: mix_chain a v gp0 base 0 fs).
+    = Ret (from_context r v TContext :: mix_chain a v gp0 (Some fp0) base 0 fs).
 Proof. exact mix_recovers_reached. Qed.
 Print Assumptions c04_recovers_chain_reached.
 
 (* ... read column by column: frame i of the recovered chain has lookup address ra_i - adj (its module is the module
    lookup of that address, C08), return address ra_i and the technique label generated for call i; one frame per call *)
-Theorem c04_chain_columns : forall a v gp base off fs,
-  map f_instr (mix_chain a v gp base off fs) = map (fun f => ms_ra f - a_adj a) fs /\
-  map f_resume (mix_chain a v gp base off fs) = map ms_ra fs /\
-  map f_trust (mix_chain a v gp base off fs) = map (fun f => mix_trust (ms_tech f)) fs /\
-  length (mix_chain a v gp base off fs) = length fs.
+Theorem c04_chain_columns : forall a v gp st base off fs,
+  map f_instr (mix_chain a v gp st base off fs) = map (fun f => ms_ra f - a_adj a) fs /\
+  map f_resume (mix_chain a v gp st base off fs) = map ms_ra fs /\
+  map f_trust (mix_chain a v gp st base off fs) = map (fun f => mix_trust (ms_tech f)) fs /\
+  length (mix_chain a v gp st base off fs) = length fs.
 Proof. exact mix_chain_columns. Qed.
 Print Assumptions c04_chain_columns.
 
@@ -247,14 +253,14 @@ Definition nv_mix (skip : Z) (n : nat) : list mspec :=
 Definition nv_mods (x : Z) : option Z := if (1073741824 <=? x) && (x <? 1073807360) then Some 0 else None.
 
 Example c04_nonvacuous_mix_wf64 :
-  mix_wf_layout x86 nv_iv nv_mods 2147483648 1073741904 (nv_mix 0 64) = true /\
-  mix_wf_layout arm64 nv_iv nv_mods 140724603453440 1073741904 (nv_mix 0 64) = true /\
-  mix_wf_layout mips32 nv_iv nv_mods 2147483648 1073741904 (nv_mix 4 64) = true /\
+  mix_wf_layout x86 nv_iv nv_mods 2147483648 1073741904 0 (nv_mix 0 64) = true /\
+  mix_wf_layout arm64 nv_iv nv_mods 140724603453440 1073741904 0 (nv_mix 0 64) = true /\
+  mix_wf_layout mips32 nv_iv nv_mods 2147483648 1073741904 0 (nv_mix 4 64) = true /\
   map ms_tech (firstn 6 (nv_mix 0 64)) = [TkCfi; TkScan; TkCfi; TkCfi; TkScan; TkScan].
 Proof. repeat split; vm_compute; reflexivity. Qed.
 
 Example c04_nonvacuous_mix_run :
-  let '(r, v, mem) := mix_layout amd64 140724603453440 1073741904 [7; 8; 9] (nv_mix 0 64) in
+  let '(r, v, mem) := mix_layout amd64 140724603453440 1073741904 0 [7; 8; 9] (nv_mix 0 64) in
   exists fs, walk_stack current_code Debug amd64 OS_WINDOWS mem nv_mods 0 (mix_cfi_correct amd64 140724603453440 (nv_mix 0 64)) nv_iv
                (fuel_for mem) r v = Ret fs /\
              length fs = 65%nat /\
@@ -268,7 +274,109 @@ Definition nv_rule_at (x : Z) : option Z :=
   if (Nat.eqb (i mod 3) 0 || Nat.eqb (i mod 7) 2)%bool then Some (8 * (Z.of_nat (i mod 5) + 1)) else None.
 Example c04_nonvacuous_rules :
   rules_ok amd64 nv_rule_at 1073741904 (nv_mix 0 64) = true /\
-  let '(r, v, mem) := mix_layout amd64 140724603453440 1073741904 [7; 8; 9] (nv_mix 0 64) in
+  let '(r, v, mem) := mix_layout amd64 140724603453440 1073741904 0 [7; 8; 9] (nv_mix 0 64) in
   exists fs, walk_stack current_code Release amd64 OS_OTHER mem nv_mods 0 (cfi_rules amd64 mem nv_rule_at) nv_iv (fuel_for mem) r v = Ret fs /\
              length fs = 65%nat /\ map f_trust (firstn 6 (tl fs)) = [TCfi; TScan; TCfi; TCfi; TScan; TScan].
 Proof. split; [vm_compute; reflexivity|]. cbn [mix_layout]. eexists. split; [vm_compute; reflexivity|]. split; reflexivity. Qed.
+
+(* frame-pointer frames in the mix.  [nv_mix3 a base n]: n calls; the first 41: described by CFI when i mod 4 = 0, found
+   through the frame pointer otherwise; the others: CFI when i mod 3 = 0, found by scanning otherwise (a scan loses the
+   frame pointer, no frame-pointer frame can follow) — the saved frame pointer of a frame-pointer frame is the address
+   of the next one's saved word when CFI frames only lie between them, 0 when the next frame that needs it is a scan
+   frame (the saved words are addresses of later records: [nv_need3]). *)
+Definition nv_tech3 (i : nat) : tech :=
+  if (i <=? 40)%nat then match (i mod 4)%nat with 0%nat => TkCfi | _ => TkFp end
+  else match (i mod 3)%nat with 0%nat => TkCfi | _ => TkScan end.
+Definition nv_len3 (i : nat) : Z :=
+  match nv_tech3 i with TkFp => 1 + Z.of_nat (i mod 3) | TkCfi => Z.of_nat (i mod 5) | TkScan => Z.of_nat (i mod 4) end.
+(* the frame pointer the callee of record i must hold: the slot of the first frame-pointer record at or after i reached
+   through CFI records, 0 if a scan record (or the end) comes first *)
+Fixpoint nv_need3 (a : arch) (base : Z) (i n : nat) (off : Z) : Z :=
+  match n with
+  | O => 0
+  | S k => match nv_tech3 i with
+           | TkFp => base + a_pw a * (off + nv_len3 i - 1)
+           | TkScan => 0
+           | TkCfi => nv_need3 a base (S i) k (off + nv_len3 i + 1)
+           end
+  end.
+Fixpoint nv_mix3_from (a : arch) (base : Z) (i n : nat) (off : Z) : list mspec :=
+  match n with
+  | O => []
+  | S k =>
+      let ra := 1073742080 + 16 * Z.of_nat i in
+      let fill := match nv_tech3 i with
+                  | TkFp => repeat 1073742100 (Z.to_nat (nv_len3 i - 1)) ++ [nv_need3 a base (S i) k (off + nv_len3 i + 1)]
+                  | TkCfi => repeat 1073742100 (Z.to_nat (nv_len3 i))
+                  | TkScan => repeat 0 (Z.to_nat (nv_len3 i))
+                  end in
+      {| ms_tech := nv_tech3 i; ms_fill := fill; ms_ra := ra |} :: nv_mix3_from a base (S i) k (off + nv_len3 i + 1)
+  end.
+Definition nv_mix3 (a : arch) (base : Z) (n : nat) : list mspec := nv_mix3_from a base 0 n 0.
+Definition nv_fp3 (a : arch) (base : Z) (n : nat) : Z := nv_need3 a base 0 n 0.
+
+Example c04_nonvacuous_mix_fp_wf64 :
+  mix_wf_layout x86 nv_iv nv_mods 2147483648 1073741904 (nv_fp3 x86 2147483648 64) (nv_mix3 x86 2147483648 64) = true /\
+  map ms_tech (firstn 6 (skipn 36 (nv_mix3 x86 2147483648 64))) = [TkCfi; TkFp; TkFp; TkFp; TkCfi; TkScan] /\
+  length (nv_mix3 x86 2147483648 64) = 64%nat.
+Proof. repeat split; vm_compute; reflexivity. Qed.
+
+Example c04_nonvacuous_mix_fp_run :
+  let '(r, v, mem) := mix_layout x86 2147483648 1073741904 (nv_fp3 x86 2147483648 64) [7; 8; 9] (nv_mix3 x86 2147483648 64) in
+  exists fs, walk_stack current_code Debug x86 OS_WINDOWS mem nv_mods 0 (mix_cfi_correct x86 2147483648 (nv_mix3 x86 2147483648 64)) nv_iv
+               (fuel_for mem) r v = Ret fs /\
+             length fs = 65%nat /\
+             map f_trust (firstn 8 (skipn 36 (tl fs))) = [TCfi; TFramePointer; TFramePointer; TFramePointer; TCfi; TScan; TCfi; TScan].
+Proof. cbn [mix_layout]. eexists. split; [vm_compute; reflexivity|]. repeat split; reflexivity. Qed.
+
+(* amd64: its frame-pointer technique wants the saved frame pointer to be a readable stack address at or above the
+   caller's sp, so no scan frame can follow a frame-pointer frame there: CFI and frame-pointer frames to the end, the
+   last saved frame pointer pointing at the last word of the stack.  arm64: the frame pointer is carried through CFI
+   frames only under the name "fp" (a context frame), not under "x29" (behind a frame-pointer frame): frame-pointer
+   frames first, then scan / CFI. *)
+Definition nv_amd_fp (base : Z) : list mspec :=
+  [ {| ms_tech := TkCfi; ms_fill := [1073742100]; ms_ra := 1073742080 |};                  (* words 0..1 *)
+    {| ms_tech := TkFp; ms_fill := [5; base + 8 * 7]; ms_ra := 1073742096 |};              (* words 2..4, saved fp at word 3 *)
+    {| ms_tech := TkCfi; ms_fill := [1073742100]; ms_ra := 1073742112 |};                  (* words 5..6 *)
+    {| ms_tech := TkFp; ms_fill := [base + 8 * 11]; ms_ra := 1073742128 |};                (* words 7..8, saved fp at word 7 *)
+    {| ms_tech := TkCfi; ms_fill := [7; 7]; ms_ra := 1073742144 |} ].                      (* words 9..11 *)
+Definition nv_a64_fp (base : Z) : list mspec :=
+  [ {| ms_tech := TkFp; ms_fill := [5; base + 8 * 3]; ms_ra := 1073742080 |};              (* words 0..2, saved fp at word 1 *)
+    {| ms_tech := TkFp; ms_fill := [0]; ms_ra := 1073742096 |};                            (* words 3..4 *)
+    {| ms_tech := TkCfi; ms_fill := [1073742100]; ms_ra := 1073742112 |};                  (* words 5..6 *)
+    {| ms_tech := TkScan; ms_fill := [0; 0]; ms_ra := 1073742128 |} ].                     (* words 7..9 *)
+Example c04_nonvacuous_mix_fp_amd64_arm64 :
+  mix_wf_layout amd64 nv_iv nv_mods 140724603453440 1073741904 (140724603453440 + 8 * 3) (nv_amd_fp 140724603453440) = true /\
+  mix_wf_layout arm64 nv_iv nv_mods 70368744177664 1073741904 (70368744177664 + 8 * 1) (nv_a64_fp 70368744177664) = true /\
+  let '(r, v, mem) := mix_layout amd64 140724603453440 1073741904 (140724603453440 + 8 * 3) [] (nv_amd_fp 140724603453440) in
+  exists fs, walk_stack current_code Debug amd64 OS_WINDOWS mem nv_mods 0 (mix_cfi_correct amd64 140724603453440 (nv_amd_fp 140724603453440)) nv_iv
+               (fuel_for mem) r v = Ret fs /\
+             map f_trust (tl fs) = [TCfi; TFramePointer; TCfi; TFramePointer; TCfi].
+Proof. split; [vm_compute; reflexivity|]. split; [vm_compute; reflexivity|]. cbn [mix_layout]. eexists. split; [vm_compute; reflexivity|]. reflexivity. Qed.
+
+(* F-C04a (known finding, design/C04.md): on arm64 (and arm) the unwinders list the frame pointer in CALLEE_SAVED_REGS as
+   "fp" while the frame-pointer technique marks "x29" ("r11") valid, and callee_forwarded_regs compares names literally:
+   behind a frame-pointer frame a CFI frame does not carry the frame pointer on, and a frame-pointer frame above it is
+   found by scanning only (frame pointer lost).  The precondition excludes exactly these stacks (CFI clause of
+   [mix_frames_ok]); here is one: frame pointer, CFI, frame pointer, CFI on arm64 — the third call comes back with trust
+   scan and the frame pointer 0, although the layout satisfies every other clause (on amd64 the same stack is recovered). *)
+Definition nv_a64_bad (base : Z) : list mspec :=
+  [ {| ms_tech := TkFp; ms_fill := [5; base + 8 * 5]; ms_ra := 1073742080 |};              (* words 0..2, saved fp at word 1 *)
+    {| ms_tech := TkCfi; ms_fill := [7]; ms_ra := 1073742096 |};                           (* words 3..4 *)
+    {| ms_tech := TkFp; ms_fill := [0]; ms_ra := 1073742112 |};                            (* words 5..6, saved fp at word 5 *)
+    {| ms_tech := TkCfi; ms_fill := [7]; ms_ra := 1073742128 |} ].                         (* words 7..8 *)
+Example c04_fp_behind_cfi_known_witness :
+  mix_wf_layout arm64 nv_iv nv_mods 70368744177664 1073741904 (70368744177664 + 8 * 1) (nv_a64_bad 70368744177664) = false /\
+  mix_wf_layout x86 nv_iv nv_mods 2147483648 1073741904 (2147483648 + 4 * 1)
+    (map (fun f => match ms_tech f, ms_fill f with TkFp, [x; _] => {| ms_tech := TkFp; ms_fill := [x; 2147483648 + 4 * 5]; ms_ra := ms_ra f |} | _, _ => f end)
+         (nv_a64_bad 0)) = true /\
+  let '(r, v, mem) := mix_layout arm64 70368744177664 1073741904 (70368744177664 + 8 * 1) [] (nv_a64_bad 70368744177664) in
+  exists fs, walk_stack current_code Debug arm64 OS_OTHER mem nv_mods 0 (mix_cfi_correct arm64 70368744177664 (nv_a64_bad 70368744177664)) nv_iv
+               (fuel_for mem) r v = Ret fs /\
+             map f_trust (tl fs) = [TFramePointer; TCfi; TScan; TCfi] /\
+             map (fun f => r_fp (f_regs f)) (tl fs) = [70368744177664 + 8 * 5; 70368744177664 + 8 * 5; 0; 0] /\
+             map (fun f => mix_trust (ms_tech f)) (nv_a64_bad 70368744177664) = [TFramePointer; TCfi; TFramePointer; TCfi].
+Proof.
+  split; [vm_compute; reflexivity|]. split; [vm_compute; reflexivity|].
+  cbn [mix_layout]. eexists. split; [vm_compute; reflexivity|]. repeat split; reflexivity.
+Qed.
